@@ -360,10 +360,10 @@ def gen_cases_ext(rng, tier, n_classes, immutable=False):
         if rng.random() < 0.45:
             case = dict(case, cls=json.loads(json.dumps(case["cls"])), kw=list(case["kw"]))
             fields = case["cls"]["fields"]
-            token = rng.choice(["@date:%Y-%m-%d", "@date:%d/%m/%Y", "@time", "@ipv4", "@hostname", "@json"])
-            good = [v for v in formats.POOL if formats.token_ok(token, v)]
-            fields.append(["z", {"k": "string", "pattern": token}])
-            fields.append(["y", {"k": "seqOf", "item": {"k": "string", "pattern": token}}])
+            fmt = rng.choice(["date:%Y-%m-%d", "date:%d/%m/%Y", "time", "ipv4", "hostname", "json"])
+            good = [v for v in formats.POOL if formats.fmt_ok(fmt, v)]
+            fields.append(["z", {"k": "string", "fmt": fmt}])
+            fields.append(["y", {"k": "seqOf", "item": {"k": "string", "fmt": fmt}}])
             if rng.random() < 0.5:
                 case["cls"]["required"] = sorted(case["cls"]["required"] + ["z"])
                 case["kw"].append(["z", rng.choice(good)])
@@ -480,7 +480,10 @@ def gen_cases_ext(rng, tier, n_classes, immutable=False):
                 for _ in range(rng.randint(1, 2)):
                     clear = {"op": "setattr", "f": g, "v": None} if rng.random() < 0.6 else {"op": "delitem", "f": g}
                     ops.insert(rng.randrange(len(ops) + 1), clear)
-        ext["re"] = formats.fix_re_table(gen.re_table(case["cls"], case["kw"], ops))
+        ext["re"] = gen.re_table(case["cls"], case["kw"], ops)
+        over = formats.overrides(ext["re"])
+        if over:
+            ext["reOverride"] = over
         out.append(ext)
     return out
 
@@ -617,6 +620,8 @@ def line(case, impl):
         l["nestedBound"] = case["nestedBound"]
     if case.get("hookNeed"):
         l["hookNeed"] = case["hookNeed"]
+    if case.get("reOverride"):
+        l["reOverride"] = case["reOverride"]
     if "steps" in impl:
         # ops whose arguments could not even be built are dropped on both sides
         keep = [i for i, s in enumerate(impl["steps"]) if s["out"] != "unbuildable-arg"]
